@@ -14,6 +14,7 @@ import (
 	"github.com/containerd/stargz-snapshotter/cache"
 	"github.com/containerd/stargz-snapshotter/fs/source"
 	rhttp "github.com/hashicorp/go-retryablehttp"
+	"github.com/sirupsen/logrus"
 	"verifsim/simreg"
 	"verifsim/simrt"
 )
@@ -160,4 +161,10 @@ func Hosts(reg *simreg.Registry, timeout time.Duration, header http.Header, plai
 			Header:       header,
 		}}, nil
 	}
+}
+
+func init() {
+	// several thousand simulated daemons per process: no log output
+	logrus.SetOutput(io.Discard)
+	logrus.SetLevel(logrus.PanicLevel)
 }
